@@ -46,6 +46,11 @@ def jobs(tier):
                               timeout=400 if q else 1500, functions=FUNCS,
                               note="parse_jaqal_output_list: one readout per visit of the unrolled program, in order, attributed by flat index; "
                                    "as_int/as_str as supplied; per-subcircuit readouts and relative frequencies count its own readouts"))
+                if lets and spell == 21:
+                    out.append(CH(name=f"c08_outputs_s{shape}_override", base="c08_outputs", func=f"{H}:c08_outputs",
+                                  params=[("n1", "int"), ("n2", "int"), ("n3", "int")], pre=_pre(nmax),
+                                  fixed={"shape": shape, "spell": spell, "lets": True, "ov": True, "o0": 1, "o1": 2, "o2": 0}, timeout=400 if q else 1500, functions=FUNCS + ["fill_in_let"],
+                                  note="loop counts are lets declared with other values and overridden through fill_in_let: visits follow the overriding counts"))
                 out.append(CH(name=f"c08_emulate_s{shape}_sp{spell}_{'let' if lets else 'lit'}", base="c08_emulate", func=f"{H}:c08_emulate",
                               params=[("n1", "int"), ("n2", "int"), ("n3", "int"), ("p0", "int"), ("p1", "int")],
                               pre=_pre(nmax) + ["0 <= p0 <= 3", "0 <= p1 <= 3"], fixed={"shape": shape, "spell": spell, "lets": lets},
